@@ -54,6 +54,7 @@ class Normalizer:
         self.atoms = {}  # key -> z3 term
         self.sqrt_arg = {}  # atom key -> polynomial of its argument (for reduction s^2 -> arg)
         self.prime_atoms = {}
+        self.uf_seen = []
 
     # ---- polynomial helpers with radical reduction
     def pmul(self, a, b):
@@ -186,6 +187,20 @@ class Normalizer:
     def uf_atom(self, t, name, args):
         canon = tuple((frozenset(n.items()), frozenset(d.items())) for n, d in args)
         key = ("u", name, canon)
+        if key not in self.atoms:
+            # congruence modulo common factors: f(n1/d1) and f(n2/d2) are the same atom when n1*d2 == n2*d1
+            for (nm, oargs, okey) in self.uf_seen:
+                if nm != name or len(oargs) != len(args):
+                    continue
+                try:
+                    same = all(not _padd(self.pmul(n1, d2), self.pmul(n2, d1), -1) for (n1, d1), (n2, d2) in zip(args, oargs))
+                except TooBig:
+                    same = False
+                if same:
+                    key = okey
+                    break
+            else:
+                self.uf_seen.append((name, args, key))
         self.atoms[key] = t
         return {((key, 1),): Fraction(1)}, key
 
